@@ -40,7 +40,7 @@ def run(c):
             c.correspond(out, drv, label="script:" + os.path.abspath(f))
         # several harness processes in parallel (each a different seed derived from VERIF_SEED), one correspondence each
         from concurrent.futures import ThreadPoolExecutor
-        chunks, per = c.n((4, 100), (8, 2000))
+        chunks, per = c.n((4, 100), (8, 1500))
         def one(k):
             return c.go_run(binary, ["-mode=c19", f"-n={per}", f"-seed={c.seed * 1000 + k}"], timeout=1500)
         with ThreadPoolExecutor(chunks) as ex:
@@ -85,7 +85,7 @@ META = {
              "deleted ids are never reused; with the flood limit in force every successful creation consumes one unit of a potential that is refilled by "
              "bonus per elapsed step and capped by maxBudget, hence #creations <= max(maxBudget, budget at start) + bonus*(elapsed steps) for every window "
              "under a non-decreasing clock, and a request with no budget left answers flood-limit and changes nothing."),
-    "note": ("Trusted: Lean kernel, SQLite, model<->code correspondence (quick 400, thorough 16000 histories). Observed and reported, not alarmed on: "
+    "note": ("Trusted: Lean kernel, SQLite, model<->code correspondence (quick 400, thorough 12000 histories). Observed and reported, not alarmed on: "
              "ResetFlood stores the unrounded time, so a reset to a value <= maxBudget is undone (budget back to maxBudget-1) by the next creation in the "
              "same step through the unsigned wrap of now-last; a clock moving backwards refills the budget the same way; ResetFlood's 'before' is read for "
              "the literal metric \"abc2\"."),
